@@ -200,6 +200,8 @@ def compare(lines, impl, model, strict_err=False, ignore=None, normalize=None):
             a, b = impl[i], model[i]
             if b is not None and b.startswith("SKIP"):
                 oc.skipped += 1
+                if b.startswith("SKIP float-fmt"):
+                    continue        # only the rendering of this answer was given up; the state is intact
                 break
             if a is not None and (a.startswith("PANIC") or a in ("ABORT", "TIMEOUT")):
                 oc.impl_panics.append(([lines[j] for j in idxs], i - idxs[0], a))
